@@ -279,6 +279,19 @@ def install_models(reg):
 
     em["os.chmod"] = os_chmod
 
+    def os_mkdir(it, args, kw):
+        """mkdir / makedirs: creates the directory (and, for makedirs, missing parents): a write location"""
+        p = path_arg(it, args[0])
+        fs = fs_of(it)
+        may_fail(it, "os.mkdir")
+        fs_event(it, "mkdir", p)
+        set_at(fs, "exists", p.z, True)
+        set_at(fs, "isdir", p.z, True)
+        return NONE
+
+    em["os.mkdir"] = os_mkdir
+    em["os.makedirs"] = os_mkdir
+
     def b_open(it, args, kw):
         p = path_arg(it, args[0])
         mode = it.concrete(it.force(args[1])) if len(args) > 1 else it.concrete(it.force(kw.get("mode", VStr("r"))))
@@ -423,7 +436,7 @@ def install_spec(reg):
         d = sview(dest).z
         cs = []
         for op, a in evs(it):
-            if op in ("remove", "open", "chmod", "rmtree"):
+            if op in ("remove", "open", "chmod", "rmtree", "mkdir"):
                 cs.append(z_within(a[0].z, d))
             elif op == "rename":
                 cs += [z_within(a[0].z, d), z_within(a[1].z, d)]
